@@ -103,6 +103,34 @@ def attr_source_required_only(s):
     return prop.source == s and prop.name == name and accepts(el, {s: 1}) and not accepts(el, {})
 
 
+def attr_source_reparse(s, how):
+    """object schemas whose `properties` are parsed and then parsed AGAIN (type list, composition sibling, one dict used twice)"""
+    from vf.common import parse_element, parse_s, accepts, get_object_classes
+
+    obj = {"type": "object", "title": "T", "properties": {s: {"type": "integer"}}, "required": [s]}
+    if how == 0:
+        S = dict(obj, type=["object", "null"])
+    elif how == 1:
+        S = dict(obj, anyOf=[{"minProperties": 0}])
+    elif how == 2:
+        S = dict(obj)
+        S["not"] = {"required": ["zz"]}
+    else:
+        S = {"type": "object", "title": "Root", "properties": {"p": obj, "q": obj}, "definitions": {"d": obj}}
+        root = parse_element(S)
+        cls = root.properties["q"].element
+        classes = [c for c in get_object_classes(root) if c.__name__.startswith("T")]
+        return _source_ok(cls, s) and len(classes) >= 1 and all(_source_ok(c, s) for c in classes)
+    el = parse_s(S)
+    classes = list(get_object_classes(el))
+    return len(classes) == 1 and _source_ok(classes[0], s) and accepts(el, {s: 1}) and not accepts(el, {})
+
+
+def _source_ok(cls, s):
+    props = cls.properties
+    return len(props) == 1 and list(props.values())[0].source == s
+
+
 def attr_distinct(s1, s2):
     from statham.schema.parser import _parse_attribute_name
 
@@ -230,6 +258,9 @@ def harnesses(ctx) -> List[H]:
                  covers="names that occur only under required: JSON name recorded, value under that name accepted"))
     hs.append(mk("c12_attr_source_required_only_pool", "i: int", ["0 <= i < 8"], "pool = ('my-prop', 'class', '$ref', '1st', 'two words', '__init__', 'a.b', 'default')\nreturn attr_source_required_only(pool[concretize_int(i, 0, 7)]) and attr_source(pool[concretize_int(i, 0, 7)])", timeout=200, group="attr",
                  covers="typical renamed names, declared and required-only"))
+    hs.append(mk("c12_attr_source_reparse_pool", "i: int, how: int", ["0 <= i < 8", "0 <= how < 4"],
+                 "pool = ('my-prop', 'class', '$ref', '1st', 'two words', '__init__', 'a.b', 'plain')\nreturn attr_source_reparse(pool[concretize_int(i, 0, 7)], concretize_int(how, 0, 3))", timeout=300, group="attr",
+                 covers="renamed names on objects whose properties are re-parsed (type list, anyOf / not sibling, one sub-schema dict used three times)"))
     # ---- attribute names: siblings
     ex_c = ctx.known("C12-attr-collision")
     dom1 = ["len(s1) == 1", "len(s2) == 1", "s1 != s2", "all(ord(c) < 128 for c in s1 + s2)"]
